@@ -572,10 +572,15 @@ def run(tier, seed, rep):
     rep.bounds += ['%d shapes (see per_task): whole TOUGH2 / AUTOUGH2 models, mesh in file / in a MESH file, extra precision echoed / not echoed, meshmaker xyz / rz2d / minc, history requests with and without a grid%s' % (
         len(sh), '; thorough: list lengths 0..13 for every 4- and 8-per-line list, table generators with 1..12 times with / without enthalpy, every section alone' if tier == 'thorough' else ''),
         'every real field, MOP digit, integer field symbolic; <=3 blocks, <=2 rock types, <=3 generators; up to 3 block names with symbolic characters',
-        'extra precision echoed: double rounding between the two renderings of one value is decided on one designated value in [1,10) with an exact decimal rounding model and assumed away for the others', 'reals: 0 or 1e-90 <= |v| <= 1e90, renderings assumed to fit their fields (in every format the value is printed with)']
+        'extra precision echoed: double rounding between the two renderings of one value is decided on one designated value in [1,10) with an exact decimal rounding model and assumed away for the others', 'reals: 0 or 1e-90 <= |v| <= 1e90, renderings assumed to fit their fields (in every format the value is printed with)',
+        'round 4: objects read / written once and then given data of 10 (TOUGH2) / 7 (AUTOUGH2) further section kinds; None in every optional field of the records built from the format tables (two complementary masks, other fields symbolic), blank DELTEN, blank SELEC line count, blank XYZ DEL with increments; INCON by name without blocks; extra precision for [ELEME, CONNE], [ELEME, ROCKS], [GENER]; data file written as Model.dat and read as ./Model.dat; MINC dual with symbolic characters; a 4-character rock name with INDOM; times / time steps in numpy arrays',
+        'round 4: files of an independent Fortran-style writer (0.ddddD+ee / E / F fields with symbolic mantissa digits, one symbolic sign, concrete exponents; mesh in file / in a MESH file; MOMOP with 21 symbolic digits and no ELEME / CONNE) read with fortran_read_function, then written, read and written']
     rep.outside += ['values in %f fields that print as -0.00.. (IEEE negative zero)', 'binary MESHA/MESHB pair (struct / numpy record arrays: C boundary)', 'shipped data files and an independent Fortran-style writer as inputs (concrete)',
-                    'IEEE rounding of %e; -0.0', 'names with punctuation', 'ordered pairs of sections beyond those in the listed shapes']
+                    'IEEE rounding of %e; -0.0', 'names with punctuation', 'ordered pairs of sections beyond those in the listed shapes',
+                    'block centres with only some of the three coordinates given', 'a companion .pdat file left on disk by an earlier write of another model; reading into an object that already holds data',
+                    'exponent digits of Fortran-style numbers (concrete), Fortran-style .pdat files']
     rep.assumptions += ['printf contract and token-read model of vx/strs.py', 'in-memory file stub replaces open()/os.path.exists()',
-                        'a re-read real equals R_fmt(v) for one of the formats used in the tables (which field carries which precision is decided per record by C02)']
+                        'a re-read real equals R_fmt(v) for one of the formats used in the tables (which field carries which precision is decided per record by C02)',
+                        'oracle: a field left None whose default in the object is 0.0 (PARAM tstart, const_timestep, gravity; ROCKS compressibility, expansivity, dry_conductivity, tortuosity) reads back as 0.0; any other None reads back as None; SHORT frequency / sequence numbers 0 read back as None; names shorter than their field are equal up to padding']
     rep.process_failures()
     return rep.finish(rule='one obligation per (shape, path, compared field) plus file equalities; distinct by z3 AST hash')
